@@ -30,7 +30,7 @@ class MOutOfDomain(Exception):
 class N:
     """A model node."""
 
-    __slots__ = ("kind", "name", "members", "uid", "target_path", "target", "suffix", "up", "stamp", "unreg")
+    __slots__ = ("kind", "name", "members", "uid", "target_path", "target", "suffix", "up", "stamp", "unreg", "reg_path", "reg_stamp", "displaced", "label")
 
     def __init__(self, kind: str, name: str, uid: int, target_path: str | None = None, suffix: str = ".py") -> None:
         self.kind = kind            # module / class / function / attribute / alias
@@ -43,6 +43,11 @@ class N:
         self.up: N | None = None         # container node (None: collection level or detached)
         self.stamp = 0                   # aliases: logical time at which the alias was last bound / registered
         self.unreg = False               # aliases: bound while the rest of the chain could not be followed (never registered)
+        self.reg_path: str | None = None  # aliases: the path the alias had when it was last bound / registered (None: never, no parent then)
+        self.reg_stamp = 0               # aliases: logical time of the last registration (unlike ``stamp``, also advanced when a
+                                         # resolution that happened behind the model's back is adopted)
+        self.displaced = -1              # aliases: value of reg_stamp when the registration was seen displaced by a stale alias
+        self.label: str | None = None    # creation label ("u<k>" universe step, "h<k>" history step, "<label>/<name>" prebuilt member)
 
     def path(self) -> str:
         parts, n = [], self
@@ -78,7 +83,10 @@ class Tree:
         if target is not None:
             alias.target = target
         self.clock += 1
-        alias.stamp = self.clock
+        alias.stamp = alias.reg_stamp = self.clock
+        # the key of the registration is the path the alias has at this moment (no parent: nothing is registered)
+        if alias.target is not None and alias.up is not None:
+            alias.reg_path = alias.path()
 
     def chain_changed_since_bound(self, alias: N) -> bool:
         """Was an alias further down the chain re-bound after ``alias`` was bound / registered?"""
@@ -109,6 +117,35 @@ class Tree:
                 return False
             top = top.up
         return self.root.get(top.name) is top
+
+    def is_detached_root(self, node: N) -> bool:
+        """Is ``node`` the root of a subtree that hangs nowhere (never stored, deleted, or replaced in its container)?
+        (``up`` mirrors the parent pointer, which deletion / replacement / the alias constructor's ``parent=`` leave in place.)"""
+        if node.up is None:
+            return self.root.get(node.name) is not node
+        return node.up.members.get(node.name) is not node
+
+    @staticmethod
+    def inside(node: N | None, root: N) -> bool:
+        """Is ``node`` equal to or *stored* below ``root``?"""
+        seen = 0
+        while node is not None and seen < 64:
+            if node is root:
+                return True
+            if node.up is None or node.up.members.get(node.name) is not node:
+                return False
+            node, seen = node.up, seen + 1
+        return False
+
+    @staticmethod
+    def subtree(node: N, parts: tuple = ()):
+        """Yield (relative parts, node) for ``node`` and everything stored below it (not through aliases)."""
+        todo = [(parts, node)]
+        while todo:
+            pp, n = todo.pop()
+            yield pp, n
+            if n.kind != "alias":
+                todo.extend(((*pp, name), m) for name, m in n.members.items())
 
     def walk(self):
         """Yield (parts, node, container_node_or_None) for every node reachable through non-alias containers."""
